@@ -83,33 +83,58 @@ def extra(ctx):
             keep.append((jid, code, of, v))
     fails[:] = keep
     ctx["stats"]["failing_programs_sharing_a_temporary_with_a_callee"] = hit is not None
-    # sub-routines registered through the public API at any time: K2-style check on histories
+    # sub-routines registered through the public API at any time (fresh and long-lived compilers): usable, well-formed, and ISOLATED:
+    # the temporaries a callee writes (transitively) must be disjoint from the temporaries of a statement that calls it
     hs = []
     rnd = ctx["rnd"]
-    for i in range(12 if ctx["tier"] == "quick" else 150):
+    for i in range(16 if ctx["tier"] == "quick" else 150):
         rt, pt = rnd.choice(T), rnd.choice(T)
         body = rnd.choice(["{ return x + 1; }", "{ PT y = x; y++; return y; }", "{ if (x == 0) { return 1; } else { return 2; } }",
-                           "{ return clz32(x) + x; }", "{ RT r = x; for (i = 0; i < 2; i++) { r += i; } return r; }"]).replace("PT", pt).replace("RT", rt)
+                           "{ return clz32(x) + x; }", "{ return clz32(x) + clo32(x); }", "{ PT y = x; return revbit32(y++) + clz32(y); }",
+                           "{ RT r = x; for (i = 0; i < 2; i++) { r += i; } return r; }"]).replace("PT", pt).replace("RT", rt)
         name = f"gen_sub_{i}"
-        steps = [{"c": 0, "entry": "stmt", "code": "{ RdV = RsV; }"}] * rnd.randint(0, 2)
-        steps = steps + [{"c": 0, "entry": "sub", "name": name, "ret": rt, "params": [f"{pt} x"], "code": body},
-                         {"c": 0, "entry": "stmt", "code": f"{{ RddV = {name}(RsV) + {name}(RtV); }}"},
-                         {"c": 1, "entry": "stmt", "code": f"{{ RddV = {name}(RsV); }}"}]
+        pre = [{"c": 0, "entry": "stmt", "code": rnd.choice(["{ RdV = RsV; }", "{ RdV = clz32(RsV) + clo32(RtV); }", "{ RxV++; }", "{ int32_t a = RsV; RdV = a++ + a++; }"])}
+               for _ in range(rnd.randint(0, 4))]
+        steps = pre + [{"c": 0, "entry": "sub", "name": name, "ret": rt, "params": [f"{pt} x"], "code": body},
+                       {"c": 0, "entry": "stmt", "code": f"{{ RddV = {name}(RsV) + {name}(RtV); }}"},
+                       {"c": 0, "entry": "stmt", "code": f"{{ RddV = clz32(RtV) + {name}(RsV); }}"},
+                       {"c": 0, "entry": "stmt", "code": f"{{ int32_t a = RsV; RddV = a++ + {name}(a) + clo32(RtV); }}"},
+                       {"c": 1, "entry": "stmt", "code": f"{{ RddV = {name}(RsV); }}"}]
         hs.append({"id": i, "steps": steps})
     hres = k2.run_histories(hs)
     bad = []
+    bundled = callee_tmps(k2r.sig) if k2r.sig else {}
+    n_calls = 0
     for h, hr in zip(hs, hres):
+        own = dict(bundled)          # temporaries each routine writes, transitively
         for st_, r in zip(h["steps"], hr.get("steps", [])):
             if not r.get("ok"):
                 bad.append((st_, r.get("exc"), r.get("msg")))
+                continue
+            if st_["entry"] == "sub":
+                t = set(re.findall(r'SETL\("(h_tmp\d+)"', r["text"]))
+                for c_ in set(re.findall(r"hex_(\w+)\(", r["text"])):
+                    t |= own.get(c_, set())
+                own[st_["name"]] = t
             elif st_["entry"] == "stmt":
                 try:
                     iltext.parse_body(r["text"])
                 except iltext.ILParseError as e:
                     bad.append((st_, "malformed", str(e)))
+                    continue
+                mine = set(re.findall(r'"(h_tmp\d+)"', r["text"]))
+                for c_ in set(re.findall(r"hex_(\w+)\(", r["text"])):
+                    n_calls += 1
+                    shared = mine & own.get(c_, set())
+                    # D5 (listed): the callee numbers its temporaries from h_tmp0 and the caller's counter is still that low;
+                    # any OTHER overlap (a callee whose numbering does not start at 0) is a different violation
+                    if shared and min(int(x[5:]) for x in own[c_]) > 0:
+                        bad.append((st_, "not isolated", f"callee {c_} writes {sorted(shared)}, which the calling statement also uses as its own temporaries "
+                                                         f"(callee temporaries: {sorted(own[c_])}; history: {[x['code'] for x in h['steps']]})"))
     ctx["stats"]["api_registered_sub_routine_histories"] = len(hs)
+    ctx["stats"]["calls_checked_for_isolation"] = n_calls
     if bad:
-        ctx["fails"].append(("history", str(bad[0][0]), [f"sub-routine registered through the public API is not usable: {bad[0][1]} {bad[0][2]}"], {"flags": 0}))
+        ctx["fails"].append(("history", str(bad[0][0]), [f"sub-routine registered through the public API: {bad[0][1]} {bad[0][2]}"], {"flags": 0}))
 
 
 SPEC = semprop.Spec(
